@@ -200,12 +200,65 @@ pub fn enc_plain(par: &Par, b: &Built) -> Vec<u8> {
     out
 }
 
+/// Adversarial single-file scenario: after the chunk `bad` the plaintext continues, exactly on the next
+/// chunk edge, with a well-formed EndOfFile block (hash of what precedes chunk `bad`) and an end marker.
+pub fn adversarial(scen: &Value, bad: u64) -> Value {
+    use sha2::{Digest, Sha256};
+    let consts: HashMap<&str, u64> = mla::verif::constants().iter().copied().collect();
+    let ch = consts["chunk"] as usize;
+    let par = Par::from_json(&scen["par"]);
+    let content_off = 18 + 17; // FileStart("a") + FileContent header
+    let bad = bad as usize;
+    let delivered = bad * ch - content_off; // content bytes before the damaged chunk
+    let resume = (bad + 1) * ch - content_off; // content index at the next chunk edge
+    let mut content = archive::file_bytes(&Par { custom: HashMap::new(), ..par.clone() }, 0, 0, resume);
+    let hash: [u8; 32] = Sha256::digest(&content[..delivered]).into();
+    content.push(0xFF);
+    content.extend_from_slice(&0u64.to_le_bytes());
+    content.extend_from_slice(&hash);
+    content.push(0xFE);
+    content.extend_from_slice(&[0x5A; 9]);
+    let n = content.len() as u64;
+    let mut s = scen.clone();
+    s["par"]["custom"] = json!({"0": hex::encode(&content)});
+    s["labels"] = json!([{"op": "start", "n": "a", "id": 0}, {"op": "append", "id": 0, "len": n, "src": "exact", "piece": 1},
+                        {"op": "end", "id": 0}, {"op": "finalize"}]);
+    s["stream"] = json!([{"t": "S", "id": 0, "off": 0, "len": 1, "name": "a"},
+                        {"t": "C", "id": 0, "off": 18, "len": n, "got": n, "piece": 1},
+                        {"t": "E", "id": 0, "off": 35 + n, "len": 0}, {"t": "A", "id": 0, "off": 76 + n, "len": 0}]);
+    s["faults"] = json!([{"chunk": bad, "region": "tag", "byte": 3, "bit": 1}, {"chunk": bad, "region": "data", "byte": 0, "bit": 7}]);
+    s
+}
+
+/// Flip one bit of chunk `chunk` (data or tag region); returns the damaged archive
+fn apply_fault(b: &Built, encl: usize, fault: &Value) -> Vec<u8> {
+    let consts: HashMap<&str, u64> = mla::verif::constants().iter().copied().collect();
+    let ch = consts["chunk"] as usize;
+    let c = fault["chunk"].as_u64().unwrap() as usize;
+    let nchunks = if encl == 0 { 1 } else { encl.div_ceil(ch) };
+    let dlen = if encl == 0 { 0 } else if c < nchunks - 1 { ch } else { encl - (nchunks - 1) * ch };
+    let i = fault["byte"].as_u64().unwrap_or(0) as usize;
+    let off = b.header_len + c * (ch + 16) + if fault["region"] == "tag" { dlen + (i % 16) } else { i % dlen.max(1) };
+    let mut v = b.bytes.clone();
+    if off < v.len() {
+        v[off] ^= 1 << (fault["bit"].as_u64().unwrap_or(0) % 8);
+    }
+    v
+}
+
 pub fn main(args: &[String]) {
     let scens = read_jsonl(&args[0]);
     quiet_panics();
     let mut tw = JsonlWriter::create(&args[1]);
     let mut nrep = 0u64;
-    for (k, scen) in scens.iter().enumerate() {
+    for (k, scen0) in scens.iter().enumerate() {
+        let advs;
+        let scen = if let Some(a) = scen0.get("adv") {
+            advs = adversarial(scen0, a["bad_chunk"].as_u64().unwrap());
+            &advs
+        } else {
+            scen0
+        };
         let par = Par::from_json(&scen["par"]);
         let labels = scen["labels"].as_array().unwrap();
         let b = match build_archive(&par, labels, SharedSink::new()) {
@@ -219,20 +272,50 @@ pub fn main(args: &[String]) {
         reset["sid"] = scen.get("sid").cloned().unwrap_or(json!(k));
         let modes: Vec<&str> = if par.stack.enc { vec!["auth", "unauth"] } else { vec!["auth"] };
         let stride = scen.get("cut_stride").and_then(Value::as_u64).unwrap_or(1) as usize;
-        for mode in modes {
-            let mut r = reset.clone();
-            r["mode"] = json!(mode);
-            tw.push(&r);
-            let mut cuts: Vec<usize> = (0..=b.bytes.len()).filter(|n| stride == 1 || n % stride == 0 || *n + 40 >= b.bytes.len() || *n <= b.header_len + 40).collect();
-            if let Some(list) = scen.get("cuts").and_then(Value::as_array) {
-                cuts = list.iter().map(|x| x.as_u64().unwrap() as usize).collect();
-            }
-            for n in cuts {
-                let mut ev = repair_once(&par, &b.bytes[..n], mode == "unauth", &b.files);
-                ev["ev"] = json!("repair");
-                ev["cut"] = json!(n);
-                tw.push(&ev);
-                nrep += 1;
+        let encl = reset["encl"].as_u64().unwrap() as usize;
+        let nofault = vec![Value::Null];
+        let allfaults: Vec<Value>;
+        let faults: &Vec<Value> = if scen.get("faults").and_then(Value::as_str) == Some("all") {
+            // one data-region and one tag-region flip in every chunk
+            let consts: HashMap<&str, u64> = mla::verif::constants().iter().copied().collect();
+            let ch = consts["chunk"] as usize;
+            let n = if encl == 0 { 1 } else { encl.div_ceil(ch) };
+            let sd = par.seed as usize;
+            allfaults = (0..n).flat_map(|c| vec![
+                json!({"chunk": c, "region": "data", "byte": (c * 7 + sd) % ch, "bit": (c + sd) % 8}),
+                json!({"chunk": c, "region": "tag", "byte": (c + sd) % 16, "bit": (c * 3 + sd) % 8})]).collect();
+            &allfaults
+        } else {
+            scen.get("faults").and_then(Value::as_array).unwrap_or(&nofault)
+        };
+        for fault in faults {
+            let bytes = if fault.is_null() { b.bytes.clone() } else { apply_fault(&b, encl, fault) };
+            for mode in &modes {
+                let mut r = reset.clone();
+                r["mode"] = json!(mode);
+                r["badchunk"] = if fault.is_null() { json!(-1) } else { fault["chunk"].clone() };
+                r["fault"] = if fault.is_null() { json!("none") } else { fault.clone() };
+                tw.push(&r);
+                let mut cuts: Vec<usize> = (0..=bytes.len()).filter(|n| stride == 1 || n % stride == 0 || *n + 40 >= bytes.len() || *n <= b.header_len + 40).collect();
+                if !fault.is_null() {
+                    // a damaged archive is repaired whole, and cut inside / right after the damaged chunk
+                    let ch = reset["CH"].as_u64().unwrap() as usize;
+                    let after = b.header_len + (fault["chunk"].as_u64().unwrap() as usize + 1) * (ch + 16) + 5;
+                    cuts = vec![bytes.len()];
+                    if after < bytes.len() {
+                        cuts.insert(0, after);
+                    }
+                }
+                if let Some(list) = scen.get("cuts").and_then(Value::as_array) {
+                    cuts = list.iter().map(|x| x.as_u64().unwrap() as usize).collect();
+                }
+                for n in cuts {
+                    let mut ev = repair_once(&par, &bytes[..n], *mode == "unauth", &b.files);
+                    ev["ev"] = json!("repair");
+                    ev["cut"] = json!(n);
+                    tw.push(&ev);
+                    nrep += 1;
+                }
             }
         }
     }
